@@ -87,6 +87,14 @@ def opsCmd (ws : List String) : Option String :=
     let st := List.replicate pm 0xAA
     some (showPathResult (pathSymlink pm okHost tbl (t ++ a) tl (idx.getD 0 1000) a l st st st st))
   | ["werrno", name] => some s!"{wasiErrno name}"
+  | ["rlmem", bl, tgt] => do
+    -- memory effect of path_readlink in the harness layout: [0,4) length cell | guard | [16,16+bl) buffer | 8 guard bytes
+    let bl ← bl.toNat?
+    let host : Sum String Bytes ← if tgt.startsWith "err:" then some (.inl (tgt.drop 4).toString) else (unhex tgt).map Sum.inr
+    match pathReadlinkMem host (List.replicate (24 + bl) 0xAA) 16 bl 0 with
+    | .val (e, m) => some s!"{e} {if e == 0 then leVal (m.take 4) else 0} {hex m}"
+    | .ub k => some (showUB k)
+    | _ => some "oof"
   | _ => none
 
 end Driver.Paths
